@@ -1,7 +1,13 @@
 (* The shared Publication: invariant of every history from a handed-over log, and the exact case analysis of
    one offer / claim / bulk offer (`try_result`), from which the C04 statements follow. *)
-Require Import V.Base.MachineInt V.Generated.GenConsts V.Model.Descriptor V.Model.LogBase V.Model.Appender
-               V.Model.Publication V.Proofs.DescriptorProofs V.Proofs.AppenderProofs.
+Require Import V.Base.MachineInt.
+Require Import V.Generated.GenConsts.
+Require Import V.Model.Descriptor.
+Require Import V.Model.LogBase.
+Require Import V.Model.Appender.
+Require Import V.Model.Publication.
+Require Import V.Proofs.DescriptorProofs.
+Require Import V.Proofs.AppenderProofs.
 From Coq Require Import ZifyBool.
 Open Scope Z_scope.
 
